@@ -106,6 +106,20 @@ def entry(case: dict, st) -> Tuple[Callable[[int], Any], Callable[[Any], Tuple[s
             return dig([(round(x[0], 12), [float(r.pseudo_chisqr) for r in x[1]], float(x[2])) for x in out]), f"best log_F_ext={best[0]:.6g} statistic={best[2]:.6g} ({len(out)} evaluations)"
 
         return call, desc
+    if kind == "ekk":
+        from pyimpspec import perform_exploratory_kramers_kronig_tests
+
+        kw = dict(case["kw"])
+
+        def call(num_procs):
+            return perform_exploratory_kramers_kronig_tests(d, num_procs=num_procs, timeout=600, **kw)
+
+        def desc(out):
+            results, (best, scores, lo, hi) = out
+            return dig([(r.get_num_RC(), float(r.pseudo_chisqr)) for r in results], best.get_num_RC(), lo, hi), \
+                f"{len(results)} tests (num_RC {results[0].get_num_RC()}..{results[-1].get_num_RC()}), suggested num_RC={best.get_num_RC()} limits=({lo}, {hi})"
+
+        return call, desc
     if kind == "kk":
         kw = dict(case["kw"])
 
@@ -181,6 +195,43 @@ def explore_case(case: dict, st=None) -> dict:
                 viols.append({"key": f"schedule|result-depends-on-completion-order|{case['entry']}:{case.get('label', '')}:{case['spectrum']}",
                               "what": f"{name} with {P} workers: completion order {sch.choices()} gives {summ}, the serial run gives {ssum}",
                               "case": dict(case, schedule=sch.choices()), "detail": f"choice points={[(p[0]) for p in sch.points]} labels={sch.labels[:3]}"})
+    # explicit schedule family: every stage completes in reversed blocks of k tasks (needs P >= k)
+    if case.get("block_reversals") and not viols:
+        S.State.force_processes = P
+        S.State.schedule = S.Schedule([])
+        del S.State.log[:]
+        _safe(call, max(P, 2))
+        stages = [n_ for n_ in S.State.log if isinstance(n_, int) and n_ > 1]
+        S.State.schedule = None
+        for k in case["block_reversals"]:
+            if k > P:
+                continue
+            choices: List[int] = []
+            for n_ in stages:
+                order = []
+                for b in range(0, n_, k):
+                    order += list(reversed(range(b, min(b + k, n_))))
+                choices += order_to_choices(order, n_, P)
+            sch = S.Schedule(choices)
+            S.State.schedule = sch
+            try:
+                res = _safe(call, max(P, 2))
+            except RuntimeError:
+                res = None   # the stage sizes changed under this schedule (itself schedule dependence): fall through to the comparison below
+            finally:
+                S.State.schedule = None
+            execs += 1
+            states += len(sch.points) + 1
+            if res is None or isinstance(res, BaseException):
+                viols.append({"key": f"schedule|result-depends-on-completion-order|{case['entry']}:{case.get('label', '')}:{case['spectrum']}",
+                              "what": f"{name} with {P} workers: completing every block of {k} tasks in reverse order changes the number of tasks or raises ({res!r:.80})", "case": dict(case, schedule=sch.choices())})
+                break
+            dg, summ = desc(res)
+            distinct.setdefault(dg, summ)
+            if dg != sd:
+                viols.append({"key": f"schedule|result-depends-on-completion-order|{case['entry']}:{case.get('label', '')}:{case['spectrum']}",
+                              "what": f"{name} with {P} workers: completing every block of {k} tasks in reverse order gives {summ}, the serial run gives {ssum}", "case": dict(case, schedule=sch.choices())})
+                break
     S.State.force_processes = None
     capped = execs >= case.get("cap", 20000)
     return {"n": execs, "states": states, "transitions": states - execs, "traces": execs, "violations": viols,
@@ -449,7 +500,7 @@ def zhit_cases(thorough: bool) -> List[dict]:
                 full = (P < ntasks) or thorough
                 out.append({"entry": "zhit", "label": label, "spectrum": sp, "kw": kw, "P": P, "max_dev": None if full else 2, "cap": 20000})
         out.append({"entry": "zhit", "label": "smoothing=auto,interpolation=auto", "spectrum": sp, "kw": {"smoothing": "auto", "interpolation": "auto", "window": "boxcar"},
-                    "P": 4 if not thorough else 20, "max_dev": 1 if not thorough else 2, "cap": 6000})
+                    "P": 4 if not thorough else 20, "max_dev": 1 if not thorough else 2, "cap": 6000, "block_reversals": [2, 3, 4, 5, 10, 20]})
     out.append({"entry": "zhit", "label": "default(window=auto)", "spectrum": "pure-R", "kw": {"smoothing": "auto"}, "P": 3, "max_dev": 1, "cap": 4000})
     return out
 
@@ -460,7 +511,7 @@ def run(ctx) -> None:
     ctx.rule = ("perform_zhit with smoothing='auto' (5 tasks per stage), interpolation='auto' (4) and both (20) on three spectra (generic, noisy, and a pure "
                 "resistor whose candidates tie bit-for-bit) under the controlled pool with P in {2, n} (thorough {2, 3, n}): all feasible completion "
                 "orders of both imap_unordered stages for P = 2 (3) and, in thorough, P = n; <= 2 deviations from in-order completion for P = n in "
-                "quick; <= 1 (2) deviations for the 20-task configuration and for window='auto'; fit_circuit (3 methods x 2 weights), "
+                "quick; <= 1 (2) deviations for the 20-task configuration and for window='auto', plus the schedule family 'every block of k tasks completes in reverse order'; fit_circuit (3 methods x 2 weights), "
                 "evaluate_log_F_ext (10, 20 evaluations) and the cnls test under the controlled pool (ordered imap/map: zero choice points "
                 "expected); every execution is compared with the serial result. TLC: PoolModel for (N, P) in {(3,2),(4,2),(4,3),(5,2),(5,5)}, "
                 "terminal traces compared with the enumerator and replayed on the pool and on perform_zhit. Repetition: serial call twice in one "
@@ -476,7 +527,10 @@ def run(ctx) -> None:
                              "weights": ["boukamp", "unity"], "P": 4, "max_dev": None, "cap": 500}))
     for nF in (10, 20):
         jobs.append(("explore", {"entry": "elf", "label": f"nF={nF}", "spectrum": "noisy", "nF": nF, "P": 4, "max_dev": None, "cap": 500}))
-    jobs.append(("explore", {"entry": "kk", "label": "cnls", "spectrum": "generic", "kw": {"test": "cnls", "num_RC": 0, "num_F_ext_evaluations": 0, "admittance": False}, "P": 3, "max_dev": None, "cap": 200}))
+    jobs.append(("explore", {"entry": "kk", "label": "cnls", "spectrum": "generic", "kw": {"test": "cnls", "num_RC": 0, "num_F_ext_evaluations": 0, "admittance": False}, "P": 3, "max_dev": 1 if not thorough else 2, "cap": 4000, "block_reversals": [2, 3]}))
+    jobs.append(("explore", {"entry": "ekk", "label": "exploratory cnls,P=8", "spectrum": "noisy", "kw": {"test": "cnls", "num_F_ext_evaluations": 0, "admittance": False}, "P": 8,
+                             "max_dev": 1, "cap": 4000, "block_reversals": [2, 3, 5, 8]}))
+    jobs.append(("explore", {"entry": "kk", "label": "cnls,P=8", "spectrum": "noisy", "kw": {"test": "cnls", "num_RC": 0, "num_F_ext_evaluations": 0, "admittance": False}, "P": 8, "max_dev": 1, "cap": 4000, "block_reversals": [2, 3, 5, 8]}))
     for N, P in ((3, 2), (4, 2), (4, 3), (5, 2), (5, 5)) + (((6, 3), (6, 6)) if thorough else ()):
         jobs.append(("tlc", {"N": N, "P": P}))
     for i in range(0, len(REPEAT_CASES), 2):
